@@ -29,7 +29,7 @@ PROP = dict(
                        "C12_early_local_disconnect_witness", "C12_tables_wf",
                        "C12_conc_disconnected_at_most_once", "C12_conc_event_implies_flag_cleared", "C12_conc_deliveries_in_order",
                        "C12_conc_nothing_after_remote_disconnect", "C12_conc_at_most_one_late_delivery", "C12_conc_late_delivery_witness",
-                       "C12_conc_send_after_disconnect_is_error", "C12_conc_local_calls_never_block"],
+                       "C12_conc_send_after_disconnect_is_error", "C12_conc_local_calls_never_block", "C12_conc_refines_sequential_model"],
     rule="c12.session / c12.race: one request = one scripted session against the real Peer over 127.0.0.1 (ephemeral port): a "
          "scripted node plays the tokens of the request (well-formed frames of any kind incl. ping/feefilter/sendheaders/"
          "sendcmpct/inv/tx/headers/addr/unknown commands/post-handshake version and verack, multi-kB tx; faults: wrong magic, wrong "
@@ -100,7 +100,7 @@ CLAIM = dict(
          "disconnect() and every sent message is serialisable, NOTHING is delivered after the disconnected event; with local "
          "disconnect() racing, at most ONE message is (bound attained: kernel-checked witness, replayed on the real Peer); a send "
          "started after the flag was cleared is refused at once; a local call waits only for the tcp_writer mutex whose holder can "
-         "always release it. Tied to the code by ~400 real loopback sessions per run steered through the H3 sync points of "
+         "always release it; the sequential model above IS this model under atomic schedules (refinement theorem, outputs equal for every event list). Tied to the code by ~400 real loopback sessions per run steered through the H3 sync points of "
          "peer.rs, one model step per release, log compared exactly.",
     note="Concurrency of the connected phase is modelled and proved (C12conc) under: the remote half-closes and keeps reading (a "
          "write fails only on a locally shut socket or an unserialisable message; an abortive remote close making a local send fail "
